@@ -593,3 +593,211 @@ def direct_check(case, obs):
     if len(obs["rows"]) != len(exp):
         return [f"{len(obs['rows'])} updates observed, specification produced {len(exp)} rows"]
     return []
+
+
+# ------------------------------------------------------------------ Coq side
+def _fl(xs):
+    return G.lst([G.flt(v) for v in xs])
+
+
+def _fll(rows):
+    return G.lst([_fl(r) for r in rows])
+
+
+def _opt(s):
+    return "None" if s is None else f"(Some {s})"
+
+
+def _hists(hs):
+    return None if hs is None else G.lst([f"({_fl(h['edges'])}, {_fl(h['density'])})" for h in hs])
+
+
+def _win(r, nm):
+    ln = r.get(nm + "_len")
+    if ln is None:
+        return "None"
+    return f"(Some ({G.z(ln)}, {G.zlist(r.get(nm + '_starts', []))}))"
+
+
+def input_term(r):
+    if "o_npcs" in r:
+        return f"IBuild {G.z(r['o_npcs'])} {_fll(r['o_rproj'])} {_fll(r['o_tproj'])}"
+    if "o_next" in r:
+        return f"IMon {_fl(r['o_next'])} {_fl(r.get('o_scores', []))}"
+    return "IB"
+
+
+def row_term11(r, prev):
+    m = r.get("mon")
+    if m is None:
+        mon = "None"
+    else:
+        row = None
+        changed = prev is None or prev.get("mon") is None or prev["mon"].get("nrows") != m.get("nrows")
+        if m.get("row") is not None and changed:
+            q = m["row"]
+            row = G.lst([f"(Some {G.flt(v)})" for v in (q["sum"], q["diff"], q["theta"], q["max"], q["min"], q["mean"],
+                                                         1.0 if q["check"] else 0.0, q["x"], float(m["nrows"]))])
+        mon = f"(Some ({G.ds(m['ds'])}, {G.z(m['total'])}, {G.z(m['since'])}, {G.z(m.get('nrows', 0))}, {_opt(row)}))"
+    b = r.get("building")
+    return ("mkE " + " ".join([
+        G.ds(r["ds"]), G.z(r["total"]), G.z(r["since"]),
+        "None" if b is None else f"(Some {G.boolc(b)})",
+        G.optz(r["num_pcs"]),
+        _win(r, "ref"), _win(r, "test"),
+        G.optz(r.get("nscores")), G.optf(r.get("score")),
+        mon,
+        G.lst([f"({G.z(c)}, {G.z(n)})" for c, n in r["calls"]]),
+        _opt(_fl(r["lower"]) if "lower" in r else None), _opt(_fl(r["upper"]) if "upper" in r else None),
+        _opt(_hists(r.get("dref"))), _opt(_hists(r.get("dtest"))),
+        _opt(_fl(r["tproj_last"]) if "tproj_last" in r else None)]))
+
+
+def coq_term(case, obs, head="chk_pcacd"):
+    if "__exception__" in obs:
+        return "false"
+    if any("error" in r for r in obs["rows"]):
+        return None      # step = 0: the implementation raises; outside the model (see design note)
+    p = case["params"]
+    xs, rows, prev = [], [], None
+    for r in obs["rows"]:
+        xs.append(input_term(r))
+        rows.append(row_term11(r, prev))
+        prev = r
+    return (f"{head} {G.z(p['window_size'])} {G.flt(p['sample_period'])} {G.flt(p['delta'])} "
+            f"{G.boolc(p['divergence_metric'] == 'intersection')} {G.boolc(p['online_scaling'])} "
+            f"{G.z(obs['step'])} {G.z(obs['ph_threshold'])} {G.z(obs['bins'])} {G.lst(xs)} {G.lst(rows)}")
+
+
+def show_term(case, obs):
+    return coq_term(case, obs, head="show_pcacd")
+
+
+def nontrivial(case, obs):
+    rows = obs.get("rows", [])
+    seen_drift = False
+    for r in rows:
+        if r.get("ds") == "drift":
+            seen_drift = True
+        elif seen_drift and "o_npcs" in r:
+            return True
+    return False
+
+
+# ------------------------------------------------------------------ generators
+WINDOWS = [20, 50, 100, 80, 160]
+PERIODS = [0.05, 0.1, 0.025, 0.2, 0.0125, 0.7]
+WITNESS_STEP0 = {"params": {"window_size": 10, "ev_threshold": 0.99, "delta": 0.1, "divergence_metric": "kl", "sample_period": 0.05,
+                            "online_scaling": True},
+                 "data": [[float((3 * i) % 7), float((5 * i) % 11)] for i in range(21)], "kind": "witness-step0"}
+
+
+def step_of(w, sp):
+    return min(100, py_round_exact(sp * w))
+
+
+def shift_stream(rng, n, dim, w, kind):
+    """rows with level / variance / correlation shifts placed after the first build and about every 1.5-2.5 windows"""
+    out = []
+    mean = [rng.choice([0.0, 5.0, -3.0]) for _ in range(dim)]
+    sd = [rng.choice([1.0, 0.5, 2.0]) for _ in range(dim)]
+    rho = 0.0
+    nxt = 2 * w + rng.randint(0, w)
+    for i in range(n):
+        if i == nxt:
+            k = kind if kind != "mixed" else rng.choice(["level", "variance", "correlation"])
+            if k == "level":
+                mean = [m + rng.choice([-8, -5, 5, 8]) * s for m, s in zip(mean, sd)]
+            elif k == "variance":
+                f = rng.choice([0.15, 5.0, 8.0])
+                sd = [s * f for s in sd]
+            else:
+                rho = rng.choice([0.95, -0.95]) if abs(rho) < 0.5 else 0.0
+            nxt = i + rng.randint(int(1.5 * w), int(2.5 * w))
+        z = [rng.gauss(0, 1) for _ in range(dim)]
+        for j in range(1, dim):
+            z[j] = rho * z[0] + math.sqrt(1 - rho * rho) * z[j]
+        out.append([float(mean[j] + sd[j] * z[j]) for j in range(dim)])
+    return out
+
+
+def gen_params(ctx, w=None):
+    while True:
+        ww = w or ctx.rng.choice(WINDOWS + ([30, 150, 250] if ctx.thorough else []))
+        sp = ctx.rng.choice(PERIODS)
+        if step_of(ww, sp) >= 1:
+            break
+    return {"window_size": ww, "ev_threshold": ctx.rng.choice([0.99, 0.99, 0.9, 0.7, 0.5]), "delta": ctx.rng.choice([0.1, 0.01, 0.005, 0.0]),
+            "divergence_metric": ctx.rng.choice(["kl", "intersection", "intersection"]), "sample_period": sp,
+            "online_scaling": ctx.rng.random() < 0.5}
+
+
+def gen_cases(ctx):
+    cases = []
+    st = ctx.stats
+    def add(c):
+        cases.append(c)
+        p = c["params"]
+        for k, v in (("kind", c["kind"]), ("window", p["window_size"]), ("metric", p["divergence_metric"]), ("scaling", p["online_scaling"]),
+                     ("step", step_of(p["window_size"], p["sample_period"])), ("threshold", py_round_exact(0.01 * p["window_size"])),
+                     ("features", len(c["data"][0]))):
+            st.setdefault(k, {})
+            st[k][str(v)] = st[k].get(str(v), 0) + 1
+    # every window size x both metrics x both scaling modes at least once, shift kinds rotating
+    kinds = ["level", "variance", "correlation", "mixed"]
+    k = 0
+    for w in WINDOWS + ([30, 150, 250] if ctx.thorough else []):
+        for metric in ("intersection", "kl"):
+            for scaling in (True, False):
+                if not ctx.thorough and w == 160 and metric == "kl" and not scaling:
+                    continue
+                p = dict(gen_params(ctx, w), divergence_metric=metric, online_scaling=scaling)
+                n = ctx.rng.randint(int(4.5 * w), 6 * w) if w >= 100 else ctx.rng.randint(6 * w, 10 * w)
+                add({"params": p, "data": shift_stream(ctx.rng, n, ctx.rng.randint(2, 5), w, kinds[k % 4]), "kind": kinds[k % 4]})
+                k += 1
+    for _ in range(ctx.scale(8, 300)):
+        p = gen_params(ctx)
+        w = p["window_size"]
+        n = ctx.rng.randint(4 * w, 6 * w) if w >= 100 else ctx.rng.randint(5 * w, 10 * w)
+        kind = ctx.rng.choice(kinds)
+        add({"params": p, "data": shift_stream(ctx.rng, n, ctx.rng.randint(2, 5), w, kind), "kind": kind})
+    # test window = reference window: stream periodic with period window_size
+    for _ in range(ctx.scale(6, 80)):
+        p = dict(gen_params(ctx, ctx.rng.choice([20, 50, 80, 100])), divergence_metric=ctx.rng.choice(["intersection", "intersection", "kl"]))
+        w = p["window_size"]
+        dim = ctx.rng.randint(2, 5)
+        grid = ctx.rng.random() < 0.4
+        block = [[(round(ctx.rng.gauss(0, 2) * 4) / 4 if grid else ctx.rng.gauss(0, 2)) + 3 * j for j in range(dim)] for _ in range(w)]
+        n = ctx.rng.randint(3 * w, 5 * w)
+        add({"params": p, "data": [list(block[i % w]) for i in range(n)], "kind": "periodic", "periodic": True})
+    # shorter than two windows / just at the boundary: must stay silent
+    for _ in range(ctx.scale(4, 40)):
+        p = gen_params(ctx, ctx.rng.choice([20, 50]))
+        w = p["window_size"]
+        n = ctx.rng.choice([1, w - 1, w, w + 1, 2 * w - 1, 2 * w, 2 * w + 1, 2 * w + 2])
+        add({"params": p, "data": shift_stream(ctx.rng, n, ctx.rng.randint(2, 3), w, "level"), "kind": "short"})
+    return cases
+
+
+def shrink_candidates(case):
+    d = case["data"]
+    w = case["params"]["window_size"]
+    if len(d) > 1:
+        yield dict(case, data=d[:-1])
+        yield dict(case, data=d[:len(d) // 2])
+        yield dict(case, data=d[:2 * w + 1])
+    if len(d[0]) > 2:
+        yield dict(case, data=[r[:-1] for r in d])
+
+
+def intensify(case):
+    # the same stream under the other metric / scaling mode
+    p = case["params"]
+    yield dict(case, params=dict(p, online_scaling=not p["online_scaling"]))
+    yield dict(case, params=dict(p, divergence_metric="kl" if p["divergence_metric"] == "intersection" else "intersection"))
+
+
+def signature(case, obs, msgs):
+    p = case["params"]
+    return {"step_zero": step_of(p["window_size"], p["sample_period"]) == 0,
+            "zero_division": any("ZeroDivisionError" in m for m in msgs)}
